@@ -136,11 +136,12 @@ var All = []*Prop{
 	},
 	{
 		ID:    "C06",
-		Rules: []*core.Rule{rules.StrBirth, rules.LazyScan, rules.ScratchObj},
+		Rules: []*core.Rule{rules.StrBirth, rules.LazyScan, rules.ScratchObj, rules.StrAppend},
 		Explanation: "Normal form: asciiString holds only bytes < 0x80; unicodeString holds at least one unit >= 0x80; an imported Go string decides lazily. ===, hashing and CompareTo assume it. " +
 			"R-STRBIRTH enumerates every birth of the two representation types in the module (constants, conversions, and slices/makes of unicodeString that flow on as a string) and requires an enumerated idiom: for asciiString a pure-ASCII constant, an audited ASCII producer (strconv, ftoa, big.Int, time.Format with an ASCII layout, fmt.Sprintf of numbers), values derived from asciiStrings, byte buffers/builders all of whose writes are ASCII, control dependence on a no-wide-unit test or flag, the early-exit scan idiom, importedString.s after the scan found no wide unit; for unicodeString the unistring.Scan/AsUtf16 result, control dependence on wide-unit evidence (a >= 0x80 comparison, a non-nil UTF-16 source used whole, a flag raised only under such evidence), or building on a unicodeString receiver. Builders kept in struct fields are checked across methods (flag lowered wherever non-provable content is written). " +
 			"R-LAZYSCAN: an imported Go string never consults its lazily computed UTF-16 form, nor uses its raw UTF-8 bytes for anything encoding-sensitive (ordering, hashing, length, indexing), before the scan ran. " +
-			"R-SCRATCHOBJ: between Value.baseObject(r) - which for a string primitive returns the Runtime's shared scratch String object - and every use of its result there is no call that may run script (path search, refreshed by a new baseObject call); otherwise `\"abc\"[key]` with a key whose toString touches another string reads that other string.",
+			"R-SCRATCHOBJ: between Value.baseObject(r) - which for a string primitive returns the Runtime's shared scratch String object - and every use of its result there is no call that may run script (path search, refreshed by a new baseObject call); otherwise `\"abc\"[key]` with a key whose toString touches another string reads that other string. " +
+			"R-STRAPPEND: no append() has a destination deriving from a unicodeString parameter or receiver (strings are shared; append writes into spare capacity).",
 		Technique:  "who-may-construct over SSA births with constant evaluation, flag/evidence control dependence and builder write discipline; guard-freshness dataflow for the lazy scan",
 		DesignRef:  "DESIGN.md section 4, C06",
 		NotCovered: "surrogate handling and lone-surrogate preservation (trim/case mapping/normalize go through utf16.Decode), case mapping tables, that StrictEquals/hash/CompareTo are right given the normal form, equality of two unscanned imported strings with invalid UTF-8",
@@ -159,11 +160,12 @@ var All = []*Prop{
 	},
 	{
 		ID:    "C18",
-		Rules: []*core.Rule{rules.MapEncaps, rules.KeyNorm, rules.Tombstone, rules.LazyScan, rules.NumBirth, rules.NumRange},
+		Rules: []*core.Rule{rules.MapEncaps, rules.KeyNorm, rules.Tombstone, rules.LazyScan, rules.NumBirth, rules.NumRange, rules.HashReset},
 		Explanation: "R-MAPENCAPS: every write of a field of mapEntry/orderedMap/orderedMapIter and every access of their link fields lies in methods of those types (the tombstone/linked-list invariants are then local to map.go); size is +1 only on the insertion edge of set, -1 only on the found edge of remove, 0 only in clear. " +
 			"R-TOMBSTONE (live iteration under deletion, structural half): remove() marks the found entry with key = nil and leaves that entry's own iterPrev intact, clear() marks every entry inside its loop, and next() takes the iterPrev step inside a loop controlled by key == nil (any number of adjacent tombstones). " +
 			"R-KEYNORM: in lookup the hashed and compared key, and in set the stored key, is φ(key, intToValue(0)) under key == _negativeZero. " +
-			"Key equality across representations: R-LAZYSCAN (an imported Go string never consults its lazily computed UTF-16 form, nor uses its raw bytes for anything encoding-sensitive, before the scan ran; hash() scans) and R-NUMBIRTH (canonical numbers, see C05) — SameValueZero lookups are hash-then-SameAs on representations.",
+			"Key equality across representations: R-LAZYSCAN (an imported Go string never consults its lazily computed UTF-16 form, nor uses its raw bytes for anything encoding-sensitive, before the scan ran; hash() scans) and R-NUMBIRTH (canonical numbers, see C05) — SameValueZero lookups are hash-then-SameAs on representations. " +
+			"R-HASHRESET: every implementation of hash() that writes into the Runtime's shared maphash.Hash resets it on every path from the write to its return (a hasher cleaned before instead of after use makes the next key of any type hash from a dirty state).",
 		Technique:  "field ownership (who-may-write/read), SSA phi/dominance check of key normalisation, guard-freshness dataflow for the lazy string scan, who-may-construct for numbers",
 		DesignRef:  "DESIGN.md section 4, C18",
 		NotCovered: "iterator liveness under deletion/clear/refill as a whole (the relinking arithmetic in remove/clear, entries added after clear): a history property of the data structure; only the structural half (R-TOMBSTONE) is decided; agreement of the per-type hash functions with SameValueZero beyond the lazy-scan clause",
@@ -179,7 +181,7 @@ var All = []*Prop{
 	},
 	{
 		ID:    "C16",
-		Rules: []*core.Rule{rules.InstrImmut, rules.InstrAlias, rules.InstrEscape, rules.PrimImmut, rules.LazySync, rules.Globals, rules.XRuntime},
+		Rules: []*core.Rule{rules.InstrImmut, rules.InstrAlias, rules.InstrEscape, rules.PrimImmut, rules.LazySync, rules.Globals, rules.XRuntime, rules.StrAppend},
 		Explanation: "Sharing is race-free iff shared memory is never written after publication or is synchronised. " +
 			"R-INSTRIMMUT: none of the ~260 exec(*vm) methods of types implementing `instruction` stores to memory reached through its receiver (access-path analysis: FieldAddr/IndexAddr/load chains; through pointers, slices, maps), directly or through a statically called function (writes-through-parameter summary, least fixed point). " +
 			"R-INSTRALIAS: Program-owned reference data handed to runtime-owned mutable state is copied first (names maps are shared only on the !extensible edge with a fresh map on the other; regexp literals go through clone(); every clone() returns a fresh allocation on every path). " +
@@ -187,7 +189,8 @@ var All = []*Prop{
 			"R-LAZYSYNC: every access of importedString.u outside scan() is ordered after the lazy scan (ensureScanned() on the same string or scanned.Load() == true on every path, or a string allocated in the same function) - no semantic exceptions, an unsynchronised read is a race even when both outcomes agree. " +
 			"R-PRIMIMMUT: no method of a primitive Value type writes through its receiver, except inside a function that is only ever run by the receiver's own sync.Once. " +
 			"R-GLOBALS: every package-level variable written outside package initialisation is written only under a package-level sync.Once / mutex (or in the audited profiler control API). " +
-			"R-XRUNTIME: ToValue and every valueContainer.toValue compare the object's runtime with the receiving Runtime and panic on mismatch (or route through ToValue).",
+			"R-XRUNTIME: ToValue and every valueContainer.toValue compare the object's runtime with the receiving Runtime and panic on mismatch (or route through ToValue). " +
+			"R-STRAPPEND (see C06): string values shared between Runtimes are never appended to in place.",
 		Technique:  "write-effect analysis over SSA access paths with inter-procedural writes-through summaries; alias obligations with copy/clone idioms; sync.Once discipline; who-checks rule for cross-runtime objects",
 		DesignRef:  "DESIGN.md section 4, C16",
 		NotCovered: "what the compiler puts into instruction fields (e.g. whether `extensible` is computed from the right scope), Go-API paths other than ToValue/valueContainer that accept Values (Callable arguments), races inside dependencies (regexp2, x/text), equality of concurrent and isolated results",
@@ -245,14 +248,15 @@ var All = []*Prop{
 	},
 	{
 		ID:    "C03",
-		Rules: []*core.Rule{rules.TryPair, rules.Boundary, rules.CtxFields, rules.ScopedState, rules.PairDefer, rules.ExitAgree, rules.GenResume},
+		Rules: []*core.Rule{rules.TryPair, rules.Boundary, rules.CtxFields, rules.ScopedState, rules.PairDefer, rules.ExitAgree, rules.GenResume, rules.GrowInit},
 		Explanation: "goja unwinds by Go panics; handleThrow stops at the first tryPanicMarker frame for payloads it does not convert and trusts the frame's owner to pop it. " +
 			"R-TRYPAIR: every function that acquires a marker frame (pushTryFrame(tryPanicMarker,..) or a wrapper that hands the frame to its caller) registers popTryFrame in a defer before any other call; frames turned into markers in place are tagged and skipped by handleThrow for uncatchable payloads. " +
 			"R-BOUNDARY: in each recover handler that converts an uncatchable payload into an error return, the uncatchable branch reaches leaveAbrupt() guarded only by the empty call stack, other payloads are re-panicked, every normal return passes leave()/clearStack(), and leaveAbrupt drops the job queue and clears the interrupt flag. " +
 			"R-CTXFIELDS: the register set saved by saveCtx, restored by restoreCtx and by handleThrow equals the fields of `context`; every auxiliary stack of vm is snapshotted by pushTryFrame and truncated on unwinding; suspend/resume move exactly the per-activation stacks and re-base exactly the positional tryFrame fields. All sets are derived from the struct declarations on each run. " +
 			"R-SCOPEDSTATE: vm fields that name the activation being run for the duration of one Go call (table: curAsyncRunner) are reset by a deferred closure registered before any further call, so that a panic-borne unwind (interrupt, stack overflow, host panic) cannot leave them set on the idle Runtime. " +
 			"R-PAIRDEFER: the runtime-level acquire/release pairs of a confirmed table (pushToStringStack/popFromStringStack, AsyncContextTracker.Resumed/Exited) release in a defer registered before any further call; a deferred vm.popCtx() in a recovering boundary function runs only if the matching pushCtx() completed. " +
-			"R-EXITAGREE: leaveAbrupt() resets at least the vm/Runtime fields that the normal outermost exit (RunProgram's tail and leave()) resets. R-GENRESUME (see C09): the context pushed by generator.enterNext() is popped before every return of next/nextThrow, so no call-stack entry outlives a resumed generator or async continuation.",
+			"R-EXITAGREE: leaveAbrupt() resets at least the vm/Runtime fields that the normal outermost exit (RunProgram's tail and leave()) resets. R-GENRESUME (see C09): the context pushed by generator.enterNext() is popped before every return of next/nextThrow, so no call-stack entry outlives a resumed generator or async continuation. " +
+			"R-GROWINIT: a slice of records that is grown in place (s = s[:len(s)+k], resurrecting whatever was popped earlier) gets every field of the new element assigned, or the element overwritten, in the same function; today the VM pushes with append(s, T{...}) only (0 sites; positive control = seed C03/g, which forgot tryFrame.exception).",
 		Technique:  "panic-safe acquire/release pairing (defer-before-next-call), must-pass-through on the CFG with controlling-condition classification, writer/reader field-set agreement derived from struct declarations",
 		DesignRef:  "DESIGN.md section 4, C03",
 		NotCovered: "that the restored values are the right ones (offset arithmetic), call-depth limit arithmetic, effects of a failed k-th callback inside a builtin on that builtin's own data, 'behaves exactly as a runtime that executed only the completed effects' as a whole",
@@ -271,10 +275,11 @@ var All = []*Prop{
 	},
 	{
 		ID:    "C04",
-		Rules: []*core.Rule{rules.SetOwnGuard, rules.OverrideClosure, rules.LazyOrder, rules.PropCounters},
+		Rules: []*core.Rule{rules.SetOwnGuard, rules.OverrideClosure, rules.LazyOrder, rules.PropCounters, rules.KeyKindAgree, rules.CowNames},
 		Explanation: "R-SETOWNGUARD (OrdinarySet belief, sibling contradiction rule): in every function carrying the Receiver of a [[Set]] (a `receiver Value` parameter), each X.self.setOwn{Str,Idx,Sym} call is control-dependent on receiver == X for the same SSA value X. " +
 			"R-OVERRIDECLOSURE: from go/types method sets, for each of the ~50 object kinds and each key kind K, if getOwnProp<K> resolves outside baseObject (the kind answers [[GetOwnProperty]] from custom storage) then get/hasOwnProperty/delete/defineOwnProperty/setOwn/setForeign/hasProperty<K> and the matching enumerators also resolve outside baseObject, or the baseObject version provably only dispatches back through o.val.self to overridden methods, or the (kind, method) pair is an audited table exception. " +
-			"Key-order bookkeeping (index keys are moved to the front lazily): R-LAZYORDER - every read of idxPropCount outside the bookkeeping is dominated by ensurePropOrder()/fixPropOrder() on the same object ('no index keys' shortcuts are only valid on an up-to-date counter); R-PROPCOUNTERS - in _delete each of lastSortedPropLen/idxPropCount is decremented under the comparison of the removed position with that very counter and under no comparison with the smaller one.",
+			"Key-order bookkeeping (index keys are moved to the front lazily): R-LAZYORDER - every read of idxPropCount outside the bookkeeping is dominated by ensurePropOrder()/fixPropOrder() on the same object ('no index keys' shortcuts are only valid on an up-to-date counter); R-PROPCOUNTERS - in _delete each of lastSortedPropLen/idxPropCount is decremented under the comparison of the removed position with that very counter and under no comparison with the smaller one. " +
+			"R-KEYKINDAGREE: (*Object).setStr / setIdx / setSym call the same functions modulo key kind, invoke the same interface methods and read the same fields of the property record. R-COWNAMES: every in-place element write into a slice obtained from baseObject.propNames is control-dependent on !namesMarkedForCopy, or follows a copy-on-write branch (marker tested, fresh array installed), or is in the audited table - an enumeration in progress shares that backing array.",
 		Technique:  "control dependence on a receiver-identity test (SSA); method-set matrix closure over go/types with virtual-dispatch discharge; dominance of a refresh call; controlling-condition sets of counter decrements",
 		DesignRef:  "DESIGN.md section 4, C04",
 		NotCovered: "the decision table of ValidateAndApplyPropertyDescriptor (_defineOwnProperty), the sorting done by fixPropOrder itself, freeze/seal outcomes, ArraySetLength, per-kind exotic semantics: value-level; R-EXTENSIBLE is not armed",
